@@ -19,6 +19,7 @@ type c12Case struct {
 	Argv   []string
 	ArgvB  []string // world B's command line (differs from Argv only in the required-satisfied mode)
 	EnvB   EnvState
+	After  *EnvState // world B: the environment the host program installs after the declarations (must not matter)
 	Mode   string
 	Typed  bool
 	Target string // required-satisfied: the option removed from the command line
@@ -26,6 +27,9 @@ type c12Case struct {
 
 func (c *c12Case) Describe() interface{} {
 	m := map[string]interface{}{"mode": c.Mode, "decls": describeDecls(c.DS), "spec": c.Spec, "argv": c.Argv, "env_world_B": c.EnvB.Describe()}
+	if c.After != nil {
+		m["env_world_B_after_the_declarations"] = c.After.Describe()
+	}
 	if c.Mode == "required-satisfied" {
 		m["argv_world_B"] = c.ArgvB
 		m["option_left_to_the_environment"] = c.Target
@@ -159,6 +163,22 @@ func (c12Prop) Gen(t *Tape, ph *PhaseCfg) Case {
 		}
 		c.EnvB = envFor(t, ds.Opts, func(d *Decl) bool { return d == forced || t.Draw(2) == 1 })
 	}
+	if t.Draw(4) == 0 {
+		after := c.EnvB
+		for k := 0; k < envPool; k++ {
+			if after[k] != nil {
+				switch t.Draw(3) {
+				case 0:
+					after.Unset(k)
+				case 1:
+					after.Set(k, "")
+				default:
+					after.Set(k, "\x01 not a value")
+				}
+			}
+		}
+		c.After = &after
+	}
 	return c
 }
 
@@ -190,6 +210,8 @@ func inFold(n *specNode, d *Decl) bool {
 	return false
 }
 
+var envAfter *EnvState
+
 type worldRun struct {
 	p        *Proc
 	accepted bool
@@ -199,6 +221,12 @@ type worldRun struct {
 }
 
 func runWorld(ds *DeclSet, spec string, argv []string, env EnvState) *worldRun {
+	return runWorldAfter(ds, spec, argv, env, nil)
+}
+
+func runWorldAfter(ds *DeclSet, spec string, argv []string, env EnvState, after *EnvState) *worldRun {
+	envAfter = after
+	defer func() { envAfter = nil }()
 	r := runWorldBudget(ds, spec, argv, env, defaultStepBudget)
 	if r.p.End == EndBudget && r.p.Budget == "steps" {
 		// backtracking is exponential in the worst case by design: a step budget only nominates.
@@ -219,6 +247,9 @@ func runWorldBudget(ds *DeclSet, spec string, argv []string, env EnvState, budge
 	var inst *Instance
 	RunProc(p, func() error {
 		inst = Build(app, p)
+		if envAfter != nil {
+			envAfter.Apply()
+		}
 		return inst.Cli.Run(argv)
 	})
 	EnvState{}.Apply()
@@ -253,7 +284,10 @@ func (c12Prop) Exec(cc Case, st *Stats) *Violation {
 	}
 	st.Count("world_A_accepts")
 	st.Nontrivial(fnv64(fmt.Sprintf("%s|%q|%v", c.Spec, c.ArgvB, c.EnvB.Describe())))
-	b := runWorld(c.DS, c.Spec, c.ArgvB, c.EnvB)
+	b := runWorldAfter(c.DS, c.Spec, c.ArgvB, c.EnvB, c.After)
+	if c.After != nil {
+		st.Count("fired.env_changed_after_declaration")
+	}
 	for range c.EnvB.Describe() {
 		st.Count("fired.env_valid_value_set")
 	}
